@@ -1,7 +1,6 @@
 package sim
 
 import (
-	"sync/atomic"
 	"encoding/binary"
 	"encoding/json"
 	"fmt"
@@ -10,6 +9,7 @@ import (
 	"path/filepath"
 	"sort"
 	"strings"
+	"sync/atomic"
 	"time"
 
 	"verif.local/simrt"
